@@ -2,7 +2,7 @@
  * resumed exactly once; programs that can always make progress terminate on 1-3 workers, also across re-centring
  * of the queue storage and with a custom steal function that peeks, declines and accepts. */
 #include "hcommon.h"
-enum { FM_FAN, FM_SLIDE, FM_CLIMB, FM_MUTEX, FM_CUSTOM };
+enum { FM_FAN, FM_SLIDE, FM_CLIMB, FM_MUTEX, FM_CUSTOM, FM_OCCUPY };
 typedef struct { int fam, n, y, W, K; } prog_t;
 #define MAXP 300
 static prog_t P[2][MAXP]; static int NP[2];
@@ -19,6 +19,7 @@ static void build(void) {
     add(tier, FM_SLIDE, 2, 6, W, W == 3 ? 1 : 2); add(tier, FM_SLIDE, 3, 4, W, 1);
     add(tier, FM_CLIMB, 5, 0, W, W == 3 ? 1 : 2); add(tier, FM_CLIMB, 6, 1, W, 1);
     add(tier, FM_MUTEX, 3, 1, W, W == 3 ? 1 : 2);
+    if (W > 1) add(tier, FM_OCCUPY, 2, 0, W, W == 2 ? K : 2);
     if (W > 1) { add(tier, FM_CUSTOM, 2, 1, W, 2); add(tier, FM_CUSTOM, 3, 0, W, W == 3 ? 1 : 2); add(tier, FM_CUSTOM, 3, 2, W, 1); }
   }
 }
@@ -26,7 +27,7 @@ static int nprogs(int tier) { build(); return NP[tier]; }
 static void config(int tier, int prog, int * W, int * K) { build(); *W = P[tier][prog].W; *K = P[tier][prog].K; }
 static void describe(int tier, int prog, char * b, size_t n) {
   build(); prog_t * p = &P[tier][prog];
-  static const char * const fm[] = { "fan-out", "yield ping-pong (slides the queue to its lower boundary)", "parent-first burst (fills the queue to its upper boundary)", "mutex wake-ups", "custom steal function (peek, decline, accept)" };
+  static const char * const fm[] = { "fan-out", "yield ping-pong (slides the queue to its lower boundary)", "parent-first burst (fills the queue to its upper boundary)", "mutex wake-ups", "custom steal function (peek, decline, accept)", "occupied workers: a runnable thread queued behind a thread that keeps its worker must be taken by an idle worker, whichever worker is the victim" };
   snprintf(b, n, "%s: %d threads, %d yields each", fm[p->fam], p->n, p->y);
 }
 static prog_t * cur; static volatile int ran[8], resumed[8], declined, accepted, peeked; static myth_mutex_t m;
@@ -37,6 +38,27 @@ static void * body(void * a) {
   for (int k = 0; k < cur->y; k++) { myth_yield(); resumed[i]++; }
   if (cur->fam == FM_MUTEX) { myth_mutex_lock(&m); myth_yield(); myth_mutex_unlock(&m); }
   return (void *)(long)(i + 10);
+}
+/* FM_OCCUPY: a thread that keeps its worker (spins without yielding) until main, which sits in the same worker's queue, has run somewhere else */
+static volatile int occ_phase;
+static void * occ_body(void * a) {
+  int want = (int)(long)a;
+  ran[want]++;
+  while (occ_phase < want) mv_spin_until_changed(&occ_phase, sizeof occ_phase);
+  return (void *)(long)(want + 10);
+}
+static void run_occupy(void) {
+  myth_thread_t th[4]; int victims = 0;
+  for (int ph = 1; ph <= cur->n; ph++) {
+    int w_before = mv_worker();
+    th[ph] = myth_create(occ_body, (void *)(long)ph);      /* child first: the child occupies this worker, main waits in its queue */
+    MV_CHECK(mv_worker() != w_before, "main continued on the worker that its spinning child occupies");
+    victims |= 1 << w_before;
+    mv_point(&occ_phase, sizeof occ_phase); occ_phase = ph;
+  }
+  for (int ph = 1; ph <= cur->n; ph++) { void * r = 0; myth_join(th[ph], &r); MV_CHECK((long)r == ph + 10, "thread %d result %ld", ph, (long)r); }
+  mv_obs("victims=%x main on w%d", victims, mv_worker());
+  mv_finish();
 }
 static int decide_cnt;
 static int decide(myth_thread_t th, void * u) { (void)th; (void)u; if ((decide_cnt++ & 1) == 0) { declined++; return 0; } accepted++; return 1; }
@@ -50,6 +72,7 @@ static myth_thread_t custom_steal(int rank) {
 static void run(int tier, int prog) {
   build(); cur = &P[tier][prog];
   mv_start(cur->W);
+  if (cur->fam == FM_OCCUPY) { run_occupy(); return; }
   myth_mutex_init(&m, 0);
   myth_steal_func_t prev = 0;
   if (cur->fam == FM_CUSTOM) prev = myth_wsapi_set_stealfunc(custom_steal);
